@@ -5,20 +5,28 @@ import common as C
 PROPERTIES = ["C12"]
 MANIFEST = {
     "C12": {
-        "technique": "Lean 4 proof (simulation between a model of Callback.cpp - three slot states, dirty flag, activation "
-                     "frames with invalidation - and the snapshot specification, both run by one generic program evaluator; "
-                     "invariant of the two-sided bookkeeping) + differential correspondence model vs real Callback.cpp under ASan",
-        "text": "Theorems over all programs (top-level actions and slot bodies that connect, disconnect, emit recursively and destroy "
-                "listeners/emitters, arbitrarily nested, for every fuel of the evaluator) about the Lean model of Callback.cpp; the model "
-                "is tied to the current Callback.hpp/.cpp on every run by executing identical op lines on both (exhaustively enumerated "
-                "small programs + random programs, heap objects under ASan/UBSan, white-box bookkeeping of both sides after every "
-                "top-level action) and an independent Python implementation of the snapshot specification predicts every invocation "
-                "log and the bookkeeping.",
+        "technique": "Lean 4 proof (simulation between a model of Callback.cpp - three slot states, dirty flag, stack of activation "
+                     "frames with next/invalidated - and the snapshot specification, both run by one generic program evaluator; the "
+                     "simulation relation contains the invariant of the two-sided bookkeeping) + differential correspondence model vs "
+                     "real Callback.hpp/.cpp under ASan/UBSan",
+        "text": "Theorems, for all programs (top-level actions and slot bodies that connect, disconnect, emit recursively and destroy "
+                "listeners/emitters, their own included, arbitrarily nested), all numbers of objects and every fuel of the evaluator, "
+                "about the Lean model of Callback.cpp: emit_refines (invocation log = log of the snapshot specification), "
+                "no_use_after_free, never_after_disconnect_or_destroy, bookkeeping_consistent; all proved in full (no partial "
+                "statement). The model is tied to the current Callback.hpp/.cpp on every run by executing identical op lines on both "
+                "(every small program up to renaming + random programs, heap objects under ASan/UBSan, white-box bookkeeping of "
+                "both sides after every top-level action); an independent Python implementation of the snapshot specification "
+                "predicts every invocation log and the bookkeeping of the real code.",
         "note": "Trusted: Lean kernel + the three standard axioms; hand translation of Callback.cpp into the model (validated by the "
-                "correspondence run, not proved): pointers are ids never reused, Map = key list + lookup function, the emission iterator "
-                "is an index into the slot list, List-node identity is an allocation counter used by no control flow; single-threaded use; "
-                "slot bodies are finite scripts indexed by (listener, slot, invocation number). See Props.lean for the list of proved "
-                "theorems and the OPEN block for statements proved only in part.",
+                "correspondence run, not proved): pointers are ids that are never reused, Map = key list + lookup function, the "
+                "emission iterator is an index into the slot list, an activation constructed without signal data is inert and "
+                "pushes no frame, the identity (address) of a List node is a number from an allocation counter that no control "
+                "flow of the model reads; the `emit` template is modelled for the arity-0 overload (the nine overloads differ in "
+                "the argument list only). Single-threaded use. Slot bodies are finite scripts indexed by (listener, slot, "
+                "invocation number); objects are not re-created after destruction. Accesses to a List item after "
+                "`List::remove` are invisible to ASan (nstd pools list items) - the check would only see their effect on the "
+                "observables. The model mirrors the code WITH the repair of defect D18 (fixes/callback/0001-*.patch); on the "
+                "unpatched tree the check reports the D18 inputs.",
         "design_ref": "DESIGN.md 3/C12",
     }
 }
@@ -300,23 +308,45 @@ def run_choices(choices, U, size):
     return tops, scripts
 
 
-def exhaustive(U, size, limit=None):
-    """all programs (up to renaming) of total size <= `size` over universe U in which every
-    scripted cell is actually invoked (under the specification)"""
+def _expand(pre, U, size):
+    """all complete programs below the choice prefix `pre` (depth-first)"""
     res = []
-    stack = [[]]
+    stack = [pre]
     while stack:
-        pre = stack.pop()
+        p = stack.pop()
         try:
-            tops, scripts = run_choices(pre, U, size)
+            tops, scripts = run_choices(p, U, size)
         except Need as ex:
             for i in range(ex.n):
-                stack.append(pre + [i])
+                stack.append(p + [i])
             continue
         res.append(history(tops, scripts))
-        if limit and len(res) >= limit:
-            break
     return res
+
+
+def _expand_job(job):
+    return _expand(*job)
+
+
+def exhaustive(U, size, limit=None, pool=None):
+    """all programs (up to renaming) of total size <= `size` over universe U in which every
+    scripted cell is actually invoked (under the specification)"""
+    if pool is None:
+        return _expand([], U, size)
+    # breadth-first until there are enough open prefixes, then one job per prefix
+    done, open_ = [], [[]]
+    while open_ and len(open_) < 400:
+        nxt = []
+        for p in open_:
+            try:
+                tops, scripts = run_choices(p, U, size)
+                done.append(history(tops, scripts))
+            except Need as ex:
+                nxt += [p + [i] for i in range(ex.n)]
+        open_ = nxt
+    for part in pool.imap(_expand_job, [(p, U, size) for p in open_], chunksize=4):
+        done += part
+    return done
 
 
 # ---- random programs -----------------------------------------------------------------------------------
@@ -412,15 +442,17 @@ def histories_for(ctx):
     quick = ctx.tier == "quick"
     hs = C.load_corpus(ctx.prop)
     ncorpus = len(hs)
-    scopes = [((1, 1, 1, 1), 6), ((1, 1, 2, 2), 5), ((2, 2, 2, 2), 3), ((3, 2, 3, 2), 3)] if quick else \
-             [((1, 1, 1, 1), 7), ((1, 1, 2, 2), 5), ((2, 2, 2, 2), 4), ((3, 2, 3, 2), 4)]
+    scopes = [((1, 1, 1, 1), 7), ((1, 1, 2, 2), 5), ((2, 2, 2, 2), 3), ((3, 2, 3, 2), 3)] if quick else \
+             [((1, 1, 1, 1), 7), ((1, 1, 2, 2), 6), ((2, 2, 2, 2), 4), ((3, 2, 3, 2), 4)]
     ex = []
     desc = []
-    for U, size in scopes:
-        e = exhaustive(U, size)
-        desc.append(f"{U[0]}e x {U[1]}g x {U[2]}l x {U[3]}s size<={size}: {len(e)}")
-        ex += e
-    nrand = 4000 if quick else 60000
+    import multiprocessing
+    with multiprocessing.Pool(C.NCPU) as pool:
+        for U, size in scopes:
+            e = exhaustive(U, size, pool=pool)
+            desc.append(f"{U[0]}e x {U[1]}g x {U[2]}l x {U[3]}s size<={size}: {len(e)}")
+            ex += e
+    nrand = 5000 if quick else 100000
     rnd = [gen_program(rng, rng.choice([6, 10, 16, 24, 40])) for _ in range(nrand)]
     depths = {}
     for h in rnd[:2000]:
